@@ -41,7 +41,7 @@ fn leaf_val(rng: &mut Rng, ty: Ty) -> Val {
 }
 
 /// Failing calls that can be inserted before position `p` of `h`, one per applicable kind.
-fn failing_calls(rng: &mut Rng, spec: &SpecTable, h: &[WOp], p: usize) -> Vec<(WOp, &'static str, &'static str)> {
+pub fn failing_calls(rng: &mut Rng, spec: &SpecTable, h: &[WOp], p: usize) -> Vec<(WOp, &'static str, &'static str)> {
     let chain = chain_at(&h[..p]);
     let mut v: Vec<(WOp, &'static str, &'static str)> = Vec::new();
     let leaves: Vec<_> = spec.elems.iter().filter(|e| e.ty != Ty::Master).collect();
@@ -130,6 +130,28 @@ fn failing_calls(rng: &mut Rng, spec: &SpecTable, h: &[WOp], p: usize) -> Vec<(W
             let at = rng.range(0, cs.len());
             cs.insert(at, bad_tag);
             v.push((WOp::Write(TagV::new(m.id, Val::Full(cs)), if rng.chance(1, 4) { Opt::Width(rng.range(2, 8) as u8) } else { Opt::Default }), "UnexpectedTag", "full-with-invalid-child"));
+        }
+    }
+    // 8. a Full master (allowed here, all children valid) whose own End is rejected: content too long for the
+    //    width requested for it, or a child Start that is never closed inside it
+    if !ok_m.is_empty() {
+        let m = **rng.pick(&ok_m);
+        let mut inner_chain = chain.clone();
+        inner_chain.push(m.id);
+        let wide: Vec<_> = leaves.iter().filter(|e| matches!(e.ty, Ty::Bin | Ty::Utf8) && spec.allowed(e.id, &inner_chain)).collect();
+        if !wide.is_empty() {
+            let e = **rng.pick(&wide);
+            let len = *rng.pick(&[125usize, 126, 127, 130, 200]);
+            let hdr = crate::enc::id_bytes(e.id).len() + if len >= 127 { 2 } else { 1 };
+            if hdr + len >= 127 {
+                let val = if e.ty == Ty::Bin { Val::B(vec![5; len]) } else { Val::S("y".repeat(len)) };
+                v.push((WOp::Write(TagV::new(m.id, Val::Full(vec![TagV::new(e.id, val)])), Opt::Width(1)), "TagSizeError", "full-too-narrow"));
+            }
+        }
+        let nested: Vec<_> = masters.iter().filter(|x| spec.allowed(x.id, &inner_chain) && x.id != m.id).collect();
+        if !nested.is_empty() {
+            let nm = **rng.pick(&nested);
+            v.push((WOp::Write(TagV::new(m.id, Val::Full(vec![TagV::new(nm.id, Val::Start)])), Opt::Default), "UnexpectedClosingTag", "full-with-unclosed-start"));
         }
     }
     v
@@ -326,6 +348,8 @@ impl Check for C19 {
                         "malformed-raw-id" => "fault_malformed_raw_id",
                         "mismatched-end" => "fault_mismatched_end",
                         "full-with-invalid-child" => "fault_full_with_invalid_child",
+                        "full-too-narrow" => "fault_full_too_narrow",
+                        "full-with-unclosed-start" => "fault_full_with_unclosed_start",
                         _ => "fault_end_too_narrow",
                     });
                 }
@@ -440,7 +464,7 @@ impl Check for C19 {
     }
 
     fn rule(&self) -> &'static str {
-        "One case = specification + valid writer call history H; at EVERY position of H one failing call of each applicable kind is inserted (tag not allowed here; payload too long for the requested size width, also via a raw tag; End of a master whose content does not fit the width requested at its Start; unknown size on a non-master, both APIs; raw tag with malformed id; End of a master that is not the innermost open one / nothing open; Full master with an invalid child at some depth and position), one at a time plus a few pairs. Differential on the real writer: each inserted call fails with the expected kind, every original call returns what it returned in H, the destination holds the same bytes after each original call, and into_inner() gives the same result and bytes. Non-trivial: at least one failing call was judged in a history of at least 2 calls. 'evaluations' counts histories; judged insertions are in counters.failing_calls_judged."
+        "One case = specification + valid writer call history H; at EVERY position of H one failing call of each applicable kind is inserted (tag not allowed here; payload too long for the requested size width, also via a raw tag; End of a master whose content does not fit the width requested at its Start; unknown size on a non-master, both APIs; raw tag with malformed id; End of a master that is not the innermost open one / nothing open; Full master with an invalid child at some depth and position; Full master whose own End is rejected because its content does not fit the requested width or because it contains a Start that is never closed), one at a time plus a few pairs. Differential on the real writer: each inserted call fails with the expected kind, every original call returns what it returned in H, the destination holds the same bytes after each original call, and into_inner() gives the same result and bytes. Non-trivial: at least one failing call was judged in a history of at least 2 calls. 'evaluations' counts histories; judged insertions are in counters.failing_calls_judged."
     }
     fn assumptions(&self) -> Vec<&'static str> {
         vec![
@@ -449,6 +473,6 @@ impl Check for C19 {
         ]
     }
     fn expected_probes(&self) -> Vec<&'static str> {
-        vec!["fault_not_allowed_here", "fault_size_not_representable", "fault_raw_size_not_representable", "fault_unknown_size_on_non_master", "fault_malformed_raw_id", "fault_mismatched_end", "fault_full_with_invalid_child", "fault_end_too_narrow", "fault_pairs", "probe_base_with_failing_into_inner"]
+        vec!["fault_not_allowed_here", "fault_size_not_representable", "fault_raw_size_not_representable", "fault_unknown_size_on_non_master", "fault_malformed_raw_id", "fault_mismatched_end", "fault_full_with_invalid_child", "fault_full_too_narrow", "fault_full_with_unclosed_start", "fault_end_too_narrow", "fault_pairs", "probe_base_with_failing_into_inner"]
     }
 }
